@@ -9,7 +9,7 @@ import numpy as np
 
 from .. import interp as E
 from ..catalogue import FAM, Builder, show
-from ..common import Decider, S, describe_struct, model_tree, pairs, structs_equal, trees_close
+from ..common import Decider, S, describe_struct, f64, model_tree, pairs, structs_equal, trees_close
 from ..harness import inconclusive, ok, skipped, violation
 from ..poly import Poly
 from ..programs import build_concrete, params_from_model, real_solver, sym_eval
@@ -30,7 +30,7 @@ BOUNDS = {'quick': 'shapes (3,), (2,3), Stokes IQU(2,), pytree; every closed-for
                    'concrete SPD 3x3 and positive-diagonal products for the lazy inverse', 'thorough': 'same + arity-3 blocks and nested inverses'}
 STUBS = ['lineax.linear_solve -> contract stub A.mv(z) == b (functional). Convergence of CG to the configured tolerance is NOT decided.']
 ASSUMPTIONS = ['real arithmetic', 'scalars != 0 and (for two-sided inverse identities) diagonal entries != 0', 'lazy inverse: the solver returns a solution',
-               'as_matrix() of a lazy inverse (jnp.linalg.inv, LU primitives) is not claimed']
+               'as_matrix() of an inverse (jnp.linalg.inv: LU primitives, not encodable) is not decided by the solver: it is compared concretely with the matrix inverse for 22 operators (rotations and their transposes on QU/IQU/IQUV at three angle pairs, HWP, SPD and non-symmetric dense, diagonal, scalar, block diagonal, move-axis)']
 RULE = 'case = (family, operator expression, identity); non-trivial = has symbolic parameters or uses the stub; distinct keys'
 BUDGET = {'quick': 300, 'thorough': 1200}
 
@@ -78,6 +78,7 @@ def cases(tier, seed):
         for x in xs:
             out.append(('lazy', fam, x))
     out.append(('refuse',))
+    out += [('dense-inverse', n) for n in _dense_inverse_ops()]
     return out
 
 
@@ -102,6 +103,8 @@ def run_case(key, twin=False):
         return run_case(key[1], twin=True)
     if key[0] == 'refuse':
         return _refuse()
+    if key[0] == 'dense-inverse':
+        return _dense_inverse(key[1])
     mode, fam, x0 = key
     e, force = _expr(x0)
     bld = Builder(fam)
@@ -170,6 +173,57 @@ def run_case(key, twin=False):
     return violation(f'{n} fails for {show(e)} [{fam}, {mode}]', model=r.model, signature=f'c06-{n}:{fam}:{show(e)}', kind=n, twin=twin, obligations=nob, **common)
 
 
+def _dense_inverse_ops():
+    """Concrete complement (no solver: jnp.linalg.inv / solve lower to LU / Cholesky primitives that are not encoded):
+    as_matrix() of the inverse is the matrix inverse, for closed-form, orthogonal and lazy inverses, several parameter values."""
+    from furax import MoveAxisOperator
+    from furax._base.blocks import BlockDiagonalOperator
+    from furax._base.core import HomothetyOperator, InverseOperator
+    from furax._base.dense import DenseBlockDiagonalOperator as Dense
+    from furax._base.diagonal import DiagonalOperator
+    from furax.landscapes import StokesPyTree
+    from furax.operators.hwp import HWPOperator
+    from furax.operators.qu_rotations import QURotationOperator
+    spd = jnp.array([[4., 1, 0], [1, 3, 1], [0, 1, 2]])
+    nsym = jnp.array([[2., 1, 0], [0, 1, 1], [0.5, 0, 1]])
+    out = {}
+    for st in ('QU', 'IQU', 'IQUV'):
+        stru = StokesPyTree.class_for(st).structure_for((2,), f64)
+        for k, ang in enumerate(([0.2, 1.1], [-2.5, 0.7], [3.0, 1.6])):
+            out[f'rotation {st} #{k}'] = (lambda stru=stru, ang=ang: QURotationOperator(jnp.array(ang), stru))
+            out[f'rotation.T {st} #{k}'] = (lambda stru=stru, ang=ang: QURotationOperator(jnp.array(ang), stru).T)
+        out[f'hwp {st}'] = (lambda stru=stru: HWPOperator(stru))
+    out['dense spd (lazy)'] = lambda: Dense(spd, S(3), 'ij,j->i')
+    out['dense non-symmetric (lazy)'] = lambda: Dense(nsym, S(3), 'ij,j->i')
+    out['InverseOperator(spd)'] = lambda: InverseOperator(Dense(spd, S(3), 'ij,j->i'))
+    out['diagonal'] = lambda: DiagonalOperator(jnp.array([2., -0.5, 4.]), in_structure=S(3))
+    out['diagonal on a matrix'] = lambda: DiagonalOperator(jnp.array([2., -0.5]), axis_destination=0, in_structure=S(2, 3))
+    out['scalar'] = lambda: HomothetyOperator(jnp.array(-2.5), S(3))
+    out['block diagonal'] = lambda: BlockDiagonalOperator([Dense(spd, S(3), 'ij,j->i'), DiagonalOperator(jnp.array([2., 4.]), in_structure=S(2))])
+    out['move axis'] = lambda: MoveAxisOperator((0, 1), (2, 0), in_structure=S(2, 3, 2))
+    return out
+
+
+def _dense_inverse(name):
+    from furax._base.core import AbstractLinearOperator
+    with real_solver():
+        op = _dense_inverse_ops()[name]()
+        try:
+            M = np.asarray(AbstractLinearOperator.as_matrix(op), dtype=np.float64)
+            Mi = np.asarray(op.I.as_matrix(), dtype=np.float64)
+        except Exception as ex:  # noqa: BLE001
+            return violation(f'{name}: as_matrix() of the inverse raises {type(ex).__name__}: {str(ex)[:120]}', signature=f'c06-dense-inverse-raises:{name}', kind='dense-inverse')
+        n = M.shape[0]
+        if Mi.shape != (n, n) or not np.all(np.isfinite(Mi)):
+            return violation(f'{name}: as_matrix() of the inverse has shape {Mi.shape} / non-finite entries', signature=f'c06-dense-inverse:{name}', kind='dense-inverse')
+        err = float(np.max(np.abs(Mi @ M - np.eye(n))))
+        if err > (1e-5 if name.startswith('InverseOperator') else 1e-8):   # the iterative solve is only exact to the solver tolerance
+            return violation(f'{name}: as_matrix() of the inverse times as_matrix() of the operator differs from the identity by {err:.3e}', signature=f'c06-dense-inverse:{name}', kind='dense-inverse')
+        if op.I.I is not op and not np.allclose(np.asarray(AbstractLinearOperator.as_matrix(op.I.I)), M, atol=1e-10):
+            return violation(f'{name}: A.I.I does not denote A', signature=f'c06-dense-II:{name}', kind='dense-inverse')
+    return ok(obligations=0, concrete_checks=1, nontrivial=True, sample=dict(case=f'dense inverse: {name}', max_error=err))
+
+
 def _refuse():
     from furax._base.core import InverseOperator
     from furax._base.dense import DenseBlockDiagonalOperator
@@ -198,7 +252,7 @@ def replay(key, model, info):
         key, twin = key[1], True
     key = _tuplify(key)
     kind = info.get('kind') or ''
-    if key[0] == 'refuse' or kind in ('raises', 'struct', 'refuse'):
+    if key[0] in ('refuse', 'dense-inverse') or kind in ('raises', 'struct', 'refuse'):
         r = run_case(key)
         return r['status'] == 'violation', r.get('what', 'ok')
     mode, fam, x0 = key
